@@ -16,6 +16,13 @@ func init() { comps["functional"] = driveFunctional }
 
 func predOf(fam string, c int) func(int) bool {
 	switch fam {
+	// stateful callbacks (also inputs, by "for every input"): the answer depends on how many times the callback has been asked
+	case "oddcall":
+		n := 0
+		return func(int) bool { n++; return n%2 == 1 }
+	case "first2":
+		n := 0
+		return func(int) bool { n++; return n <= 2 }
 	case "eq":
 		return func(v int) bool { return v == c }
 	case "ne":
@@ -35,6 +42,9 @@ func equivOf(fam string) func(a, b int) bool {
 
 func keyOf(fam string) func(int) int {
 	switch fam {
+	case "callpar": // stateful: the key is the parity of the call number
+		n := 0
+		return func(int) int { n++; return n % 2 }
 	case "mod2":
 		return func(v int) int { return v % 2 }
 	case "id":
@@ -109,6 +119,9 @@ func driveFunctional(plan []M, out *Out, _ []string) {
 				conv := func(v int) int { return v * 10 }
 				if fam == "neg" {
 					conv = func(v int) int { return -v }
+				} else if fam == "callno" { // stateful: the call number is part of the result
+					n := 0
+					conv = func(v int) int { n++; return 100*n + v }
 				}
 				resSlice = slices.Map(s, conv)
 			case "MapErr":
